@@ -345,8 +345,13 @@ def rich_models(draw, max_bodies=4, assets=True, defaults=True, frames=True, rep
       if draw(st.integers(0, 3)) == 0:
         _set(ET.SubElement(d, 'light'), diffuse=fmt([draw(num(0, 1, 1)) for _ in range(3)]))
       if draw(st.integers(0, 3)) == 0:
-        _set(ET.SubElement(d, 'tendon'), width=fmt(draw(num(0.001, 0.02, 3))),
-             rgba=fmt([draw(num(0, 1, 1)) for _ in range(4)]))
+        te = ET.SubElement(d, 'tendon')
+        _set(te, width=fmt(draw(num(0.001, 0.02, 3))), rgba=fmt([draw(num(0, 1, 1)) for _ in range(4)]))
+        if draw(st.booleans()):
+          # a springlength RANGE in a default class; tendons of the model may override it with the single value that
+          # equals the lower end (a single value means the degenerate range [a, a])
+          te.set('springlength', '0.3 %s' % fmt(draw(num(0.4, 1.5))))
+          labels.add('default-springlength-range')
       if draw(st.integers(0, 3)) == 0:
         _set(ET.SubElement(d, 'general'), ctrlrange=fmt([-draw(num(0.5, 2, 1)), draw(num(0.5, 2, 1))]),
              ctrllimited='true')
@@ -370,6 +375,25 @@ def rich_models(draw, max_bodies=4, assets=True, defaults=True, frames=True, rep
     fill(d0, 0)
     idx = [i for i, c in enumerate(root) if c.tag in ('asset', 'worldbody')][0]
     root.insert(idx, d0)
+    tsec0 = root.find('tendon')
+    if tsec0 is not None and len(tsec0) and draw(st.integers(0, 2)) == 0:
+      # the main default carries the range, so every tendon inherits it
+      te0 = d0.find('tendon')
+      if te0 is None:
+        te0 = ET.SubElement(d0, 'tendon')
+      if te0.get('springlength') is None:
+        te0.set('springlength', '0.3 %s' % fmt(draw(num(0.4, 1.5))))
+      labels.add('default-springlength-range')
+      tsec0[0].set('springlength', '0.3')
+      labels.add('tendon-springlength=default-lower-end')
+    if tsec0 is not None and 'default-springlength-range' in labels:
+      for e in tsec0:
+        k = draw(st.integers(0, 3))
+        if k == 0:
+          e.set('springlength', '0.3')             # equals the lower end of the class range
+          labels.add('tendon-springlength=default-lower-end')
+        elif k == 1:
+          e.set('springlength', fmt(draw(num(0.1, 1.0))))
     labels.add('default')
     if classes:
       labels.add('default-class')
